@@ -112,6 +112,57 @@ func (g *Gen) simpleStmt() []Stmt {
 			CallSN("emit", Str("fractional-store"), Idx(N(t), N(h)), Idx(N(t), Num(2.5)), Idx(N(t), Num(2)), Idx(N(t), Num(3)), Un("#", N(t)),
 				CallN("rawget", N(t), N(h)), CallN("rawget", N(t), Call(Dot(N("math"), "floor"), N(h))))}
 	}
+	if g.R.Intn(40) == 0 {
+		// an open last item behind a whole number of flush batches (50 positional items each), and one item
+		// off either way: the open values continue the list
+		t, mf := g.fresh("bt"), g.fresh("mf")
+		np := 50*(1+g.R.Intn(3)) + []int{0, 0, 0, -1, 1}[g.R.Intn(5)]
+		tab := &ETable{}
+		for i := 1; i <= np; i++ {
+			tab.Items = append(tab.Items, TItem{Kind: TPos, Val: Num(float64(i))})
+		}
+		tab.Items = append(tab.Items, TItem{Kind: TPos, Val: Call(N(mf))})
+		g.cover("constructor:open-tail-behind-%d-items", np)
+		return []Stmt{
+			Local1(mf, Fn(nil, false, Blk(Return(Str("x"), Str("y"), Str("z"))))),
+			Local1(t, tab),
+			CallSN("emit", Str("open-tail"), Un("#", N(t)), Idx(N(t), Num(1)), Idx(N(t), Num(float64(np))), Idx(N(t), Num(float64(np+1))), Idx(N(t), Num(float64(np+3))), Idx(N(t), Num(float64(np+4)))),
+		}
+	}
+	if g.R.Intn(30) == 0 {
+		// a constructor or a function expression as a condition is always true - but its fields are still
+		// evaluated, in order, exactly once
+		cf, n := g.fresh("cf"), g.fresh("cn")
+		call := func(k int) Expr { return Call(N(cf), Num(float64(k))) }
+		tab := func(ks ...int) Expr {
+			t := &ETable{}
+			for i, k := range ks {
+				if i%2 == 0 {
+					t.Items = append(t.Items, TItem{Kind: TPos, Val: call(k)})
+				} else {
+					t.Items = append(t.Items, TItem{Kind: TName, Name: "k", Val: call(k)})
+				}
+			}
+			return t
+		}
+		ifs := func(cond Expr, tag string) Stmt {
+			return &SIf{Sites: make([]Site, 1), Conds: []Expr{cond}, Blocks: []*Block{Blk(CallSN("emit", Str("then-"+tag)))}, Else: Blk(CallSN("emit", Str("else-"+tag)))}
+		}
+		g.cover("condition:constructor-with-side-effects")
+		return []Stmt{
+			Local1(cf, Fn([]string{"x"}, false, Blk(CallSN("emit", Str("cond-field"), N("x")), Return(N("x"))))),
+			Local1(n, Num(0)),
+			ifs(tab(1, 2), "1"),
+			ifs(Bin("and", call(3), tab(4)), "2"),
+			ifs(Bin("or", &ENil{}, tab(5, 6, 7)), "3"),
+			ifs(Un("not", tab(8)), "4"),
+			ifs(Bin("and", tab(9), tab(10)), "5"),
+			ifs(Fn(nil, false, Blk(CallSN("emit", Str("never-called")))), "6"),
+			&SWhile{Cond: tab(11), Body: Blk(Assign1(N(n), Bin("+", N(n), Num(1))), &SIf{Sites: make([]Site, 1), Conds: []Expr{Bin(">=", N(n), Num(2))}, Blocks: []*Block{Blk(&SBreak{})}})},
+			&SRepeat{Body: Blk(Assign1(N(n), Bin("+", N(n), Num(1)))), Cond: tab(12, 13)},
+			CallSN("emit", Str("cond-value"), N(n), Bin("~=", &EParen{X: Bin("and", call(14), tab(15))}, &ENil{})),
+		}
+	}
 	if g.R.Intn(30) == 0 {
 		// x op c1 op c2 groups from the left: with floating-point operands the
 		// grouping is observable (compared with the same computation done in steps)
